@@ -510,7 +510,7 @@ func (b *builder) buildC03() {
 		mode = schedDenseEnd
 	}
 	if len(s) > 1500 {
-		if b.r.Chance(1, 2) {
+		if b.r.Chance(2, 3) {
 			// long streams (very long header lines, big bodies): segment-sized deliveries
 			mode = b.r.PickInt(schedLink, schedLink, schedAdv)
 		} else {
